@@ -311,7 +311,8 @@ pub fn check_query_rich(handle: &Backend, q: &QuerySpec, st: &MState, tip: Optio
             if got != exp {
                 let gs: BTreeSet<&RowAns> = got.iter().collect();
                 let es: BTreeSet<&RowAns> = exp.iter().collect();
-                let class = if cursor_domain {
+                // a page inside one transaction was reached and rows come back more than once
+                let class = if cursor_domain && gs.len() < got.len() {
                     "txs_cursor_repeats_within_tx".to_string()
                 } else if gs == es && got.len() == exp.len() {
                     "txs_order".to_string()
